@@ -56,7 +56,7 @@ def with_auto(spec):
 
 # ---------------------------------------------------------------------------------------
 
-def judge(res, sig, what, d, truth, out, mef_given, mef_channels, statistic, one, stub_labels=None, check_partition=False, cluster=''):
+def judge(res, sig, what, d, truth, out, mef_given, mef_channels, statistic, one, stub_labels=None, check_partition=False, cluster='', sizes='equal'):
     """all clauses on one full_output result.  mef_given[c][j] (None/nan = unknown).  Returns canonical summary or None."""
     import FlowCal
     labels = np.asarray(out.clustering['labels'])
@@ -76,7 +76,7 @@ def judge(res, sig, what, d, truth, out, mef_given, mef_channels, statistic, one
             mixed = {}
             for a, b in zip(labels.tolist(), tl.tolist()):
                 mixed.setdefault(a, set()).add(b)
-            res.violation(sig + ':partition', '%s: clusters do not coincide with the generating populations: cluster -> populations %s' % (
+            res.violation(sig + ':partition:sizes=' + sizes, '%s: clusters do not coincide with the generating populations: cluster -> populations %s' % (
                 what, {k: sorted(v) for k, v in mixed.items()}), one)
             return None
     # groups by reported label, ordered by brightness of the generating population
@@ -279,7 +279,8 @@ def layer_b_cases(tier, seed):
     dims = [('n_pop', [6, 7, 8]), ('ratio', [3.0, 2.5, 4.0]), ('cv', [0.03, 0.02, 0.05]), ('n_events', [200, 800]),
             ('m', [1.0, 0.9, 1.2]), ('b', [3.0, 1.0, 5.0]), ('auto', ['none', 'some']), ('nch', [1, 2, 3]), ('blank', [False, True]),
             ('saturated', [None, 'brightest', 'dimmest']), ('unknown', [None, 'first', 'middle', 'last']),
-            ('cluster', ['mef', 'one', 'all-fl', 'with-scatter']), ('container', ['int', 'float']), ('statistic', ['median', 'mean'])]
+            ('cluster', ['mef', 'one', 'all-fl', 'with-scatter']), ('container', ['int', 'float']), ('statistic', ['median', 'mean']),
+            ('sizes', ['equal', 'alternating', 'increasing', 'decreasing'])]
     bound = 1 if tier == 'quick' else 2
     K = 2 if tier == 'quick' else 4
     streams = [seed * K + i for i in range(K)]
@@ -296,7 +297,12 @@ def spec_of(cfg, stream):
         m = cfg['m'] + 0.05 * ci
         b = cfg['b'] + 0.5 * ci
         laws.append((m, b, 0.0))
-    spec = dict(DEFAULT, n_pop=cfg['n_pop'], ratio=cfg['ratio'], cv=cfg['cv'], n_events=cfg['n_events'], laws=laws,
+    k = cfg['n_pop']
+    sizes = {'equal': [cfg['n_events']] * k,
+             'alternating': [200 if j % 2 == 0 else 800 for j in range(k)],
+             'increasing': [int(round(200 + 600.0 * j / (k - 1))) for j in range(k)],
+             'decreasing': [int(round(800 - 600.0 * j / (k - 1))) for j in range(k)]}[cfg.get('sizes', 'equal')]
+    spec = dict(DEFAULT, n_pop=cfg['n_pop'], ratio=cfg['ratio'], cv=cfg['cv'], n_events=sizes, laws=laws,
                 blank=cfg['blank'], saturated=cfg['saturated'], container=cfg['container'], stream=stream)
     if cfg['auto'] == 'some' or cfg['blank']:
         laws2 = []
@@ -331,7 +337,7 @@ def run_b(c, res):
     except Exception as e:
         res.violation('B:raises:%s' % type(e).__name__, '%s raised %s: %s' % (what, type(e).__name__, e), one)
         return
-    s = judge(res, 'B', what, d, truth, out, mef_given, mef_channels, cfg['statistic'], one, check_partition=True, cluster=cfg['cluster'])
+    s = judge(res, 'B', what, d, truth, out, mef_given, mef_channels, cfg['statistic'], one, check_partition=True, cluster=cfg['cluster'], sizes=cfg.get('sizes', 'equal'))
     if s is None:
         return
     # reproducible for a fixed random seed
@@ -349,7 +355,7 @@ def run_b(c, res):
     with warnings.catch_warnings():
         warnings.simplefilter('ignore')
         out3 = run_pipeline(d2, truth2, mef_given, mef_channels, cl, cfg['statistic'], seed=stream + 77)
-    s3 = judge(res, 'B:reordered', what + ' [events reversed]', d2, truth2, out3, mef_given, mef_channels, cfg['statistic'], one, check_partition=True, cluster=cfg['cluster'])
+    s3 = judge(res, 'B:reordered', what + ' [events reversed]', d2, truth2, out3, mef_given, mef_channels, cfg['statistic'], one, check_partition=True, cluster=cfg['cluster'], sizes=cfg.get('sizes', 'equal'))
     if s3 is None:
         return
     for (ch, kept, rfi, mef, params), (ch3, kept3, rfi3, mef3, params3) in zip(s, s3):
